@@ -163,8 +163,10 @@ def _prob_by_engine(cond, prog, params, vs):
     from ..lang.ast import cond_vars, num, walk_stmts
     from ..ref.engine import Engine, Unsupported, CapExceeded, DomainError
     from ..ref import laws
+    from ..lang.ast import rhs_vars
     prefix = []
     hit = False
+    tainted = set()   # variables assigned inside earlier if-statements (which are not part of the prefix that is run)
     for st in prog.body:
         if st[0] == "if":
             tested = set()
@@ -173,18 +175,33 @@ def _prob_by_engine(cond, prog, params, vs):
             if set(vs) <= tested:
                 hit = True
                 break
-            return None  # an earlier if-statement could reassign: outside the shape
+            tainted |= {a[1] for a in _all_assigns([st])}
+            continue
+        if st[0] == "simult":
+            tainted |= set(st[1])
+            continue
         prefix.append(st)
     if not hit:
         return None
-    pvars = {s_[1] for s_ in prefix if s_[0] == "assign"}
+    # slice: only the assignments the tested values are computed from
+    needed = set(vs)
+    changed = True
+    while changed:
+        changed = False
+        for st in prefix:
+            if st[0] == "assign" and st[1] in needed and not rhs_vars(st[2]) <= needed | set(params):
+                needed |= rhs_vars(st[2]) - set(params)
+                changed = True
+    if needed & tainted:
+        return None  # an earlier if-statement may reassign what the condition reads: outside the shape
+    prefix = [st for st in prefix if st[0] == "assign" and st[1] in needed]
+    pvars = {s_[1] for s_ in prefix}
     if not set(vs) <= pvars:
         return None
-    # iteration independence: nothing in the prefix reads a variable that is not assigned earlier in the prefix
-    from ..lang.ast import rhs_vars
+    # iteration independence: nothing in the slice reads a variable that is not assigned earlier in the slice
     seen = set()
     for st in prefix:
-        if st[0] != "assign" or len(st) > 3:
+        if len(st) > 3:
             return None
         if not rhs_vars(st[2]) <= seen | set(params):
             return None
